@@ -188,3 +188,74 @@ Proof.
   exists s3. repeat split; auto.
   intros I. inversion I; subst; auto. destruct H as [s' St]. apply (ST s' St).
 Qed.
+
+(* ---- what the caller receives: each finished member at most once ---- *)
+(* This is why the decision model may take the sequence of received responses to be a
+   duplicate-free list of member indices (a prefix of a permutation). *)
+Lemma nth_error_set_nth : forall A (l : list A) i j x,
+  nth_error (set_nth i x l) j = if Nat.eqb j i then (match nth_error l j with Some _ => Some x | None => None end)
+                                else nth_error l j.
+Proof.
+  induction l as [|h t IH]; intros [|i] [|j] x; simpl; auto.
+  destruct (Nat.eqb j i); reflexivity.
+Qed.
+
+Definition delivered (s : pstate) : list nat := p_recvd s ++ p_buf s.
+
+Record inv2 (s : pstate) : Prop := mkInv2 {
+  inv2_nodup : NoDup (delivered s);
+  inv2_done : forall i, In i (delivered s) -> nth_error (p_ms s) i = Some MDone
+}.
+
+Lemma inv2_init : forall n, inv2 (proc_init n).
+Proof. intros n. split; simpl; [constructor|intros i []]. Qed.
+
+Lemma nodup_snoc : forall (l : list nat) i, NoDup l -> ~ In i l -> NoDup (l ++ [i]).
+Proof.
+  intros l i ND NI. apply (Permutation.Permutation_NoDup (l:=i :: l)).
+  - apply Permutation.Permutation_cons_append.
+  - constructor; auto.
+Qed.
+
+Lemma inv2_step : forall cap stop s s', inv2 s -> pstep cap stop s s' -> inv2 s'.
+Proof.
+  intros cap stop s s' [ND DN] St. unfold delivered in *.
+  assert (FRESH : forall i m, nth_error (p_ms s) i = Some m -> m <> MDone -> ~ In i (p_recvd s ++ p_buf s)).
+  { intros i m H N I. rewrite (DN i I) in H. inversion H. congruence. }
+  assert (KEEP : forall i x j, In j (p_recvd s ++ p_buf s) -> nth_error (p_ms s) i <> Some MDone ->
+                 nth_error (set_nth i x (p_ms s)) j = Some MDone).
+  { intros i x j I N. rewrite nth_error_set_nth. destruct (Nat.eqb_spec j i) as [->|]; [|apply DN; auto].
+    exfalso. apply N. apply DN. auto. }
+  inversion St; subst; split; unfold delivered; simpl; auto.
+  - intros j I. apply KEEP; auto. rewrite H. discriminate.
+  - rewrite app_assoc. apply nodup_snoc; auto. apply (FRESH i MSend); auto. discriminate.
+  - intros j I. rewrite app_assoc in I. apply in_app_or in I as [I|[<-|[]]].
+    + apply KEEP; auto. rewrite H. discriminate.
+    + rewrite nth_error_set_nth, Nat.eqb_refl, H. reflexivity.
+  - rewrite app_nil_r. rewrite H0, app_nil_r in ND. apply nodup_snoc; auto.
+    intros I. apply (FRESH i MSend H); [discriminate|]. rewrite H0, app_nil_r. auto.
+  - intros j I. rewrite app_nil_r in I. apply in_app_or in I as [I|[<-|[]]].
+    + apply KEEP; [rewrite H0, app_nil_r; auto|]. rewrite H. discriminate.
+    + rewrite nth_error_set_nth, Nat.eqb_refl, H. reflexivity.
+  - rewrite H in ND. rewrite <- app_assoc. simpl. auto.
+  - intros i I. apply DN. rewrite H. rewrite <- app_assoc in I. simpl in I. auto.
+Qed.
+
+Lemma nodup_app_l : forall (a b : list nat), NoDup (a ++ b) -> NoDup a.
+Proof.
+  induction a as [|h t IH]; intros b H; [constructor|].
+  simpl in H. inversion H; subst. constructor; [|eapply IH; eauto].
+  intros I. apply H2. apply in_or_app. auto.
+Qed.
+
+Theorem received_once : forall cap stop n s, reachable cap stop n s ->
+  NoDup (p_recvd s) /\ forall i, In i (p_recvd s) -> i < n /\ nth_error (p_ms s) i = Some MDone.
+Proof.
+  intros cap stop n s R.
+  assert (I2 : inv2 s) by (induction R; [apply inv2_init|eapply inv2_step; eauto]).
+  pose proof (reachable_inv _ _ _ _ R) as I1.
+  destruct I2 as [ND DN]. unfold delivered in *. split.
+  - apply nodup_app_l in ND. auto.
+  - intros i Hi. assert (E : nth_error (p_ms s) i = Some MDone) by (apply DN; apply in_or_app; auto).
+    split; auto. rewrite <- (inv_len _ _ _ I1). apply nth_error_Some. congruence.
+Qed.
